@@ -81,6 +81,8 @@ def concretise(v: Dict[str, str], k: int) -> Optional[str]:
     if c == "numsexa":
         return ["%d:30:15.5" % (_n(s) + k), "-%d:05" % (_n(s) + k), "%d:59:59" % (_n(s) + k), "%d:07.25" % (_n(s) + k),
                 "%d;30;15" % (_n(s) + k), "%d 30" % (_n(s) + k)][k % 6]
+    if c == "numzero":
+        return [0, 0.0, "0", False][k % 3]       # a library user passes numbers, not text: 0 must still be serialised
     if c == "numbad":
         return NUMBAD[(int(s) - 1) % len(NUMBAD)]
     if c == "arbitrary":
@@ -116,9 +118,10 @@ class Abstraction:
     def conc(self, v) -> Optional[str]:
         s = concretise(v, self.k)
         if s is not None:
-            prev = self.rev.get(s)
+            key = str(s)
+            prev = self.rev.get(key)
             if prev is None:
-                self.rev[s] = {"c": v["c"], "s": v["s"]}
+                self.rev[key] = {"c": v["c"], "s": v["s"]}
             if v["c"] == "padded":
                 self.rev.setdefault(s.strip(), {"c": "trimmed", "s": v["s"]})
         return s
@@ -238,7 +241,7 @@ def write_xml(m: dict, ab: Abstraction, sp: int) -> str:
 
     def open_tag(tag, attrs):
         items = [(a, ab.conc(v)) for a, v in _attrs(attrs).items()]
-        items = [(a, s) for a, s in items if s is not None]
+        items = [(a, str(s)) for a, s in items if s is not None]
         if rev:
             items.reverse()
         return "<" + tag + "".join(f" {a}={q}{_esc_attr(s, q, refs)}{q}" for a, s in items)
@@ -248,12 +251,14 @@ def write_xml(m: dict, ab: Abstraction, sp: int) -> str:
     body = []
     for p in m["children"]:
         t = ab.conc(p["text"])
+        t = None if t is None else str(t)
         o = open_tag(p["tag"], p["attrs"])
         if t is None or t == "":
             body.append(pad + (o + f"></{p['tag']}>" if explicit else o + " />"))
         else:
             body.append(pad + o + ">" + _esc_text(t, refs) + f"</{p['tag']}>")
     t = ab.conc(m["text"])
+    t = None if t is None else str(t)
     o = open_tag(m["kind"], m["attrs"])
     if not body and (t is None or t == ""):
         xml = o + (f"></{m['kind']}>" if explicit else "/>")
